@@ -324,9 +324,9 @@ func (ex *Exec) sliceWF(s Term) Term {
 	is := ex.cx.intS()
 	off, ln, cp := app(is, "soff", s), app(is, "slen", s), app(is, "scap", s)
 	if ex.cx.mode == "bv" {
-		max := bvLit(pow2(62), 64)
+		max := bvLit(pow2(50), 64)
 		return and(app(SBool, "bvule", ln, cp), app(SBool, "bvule", cp, max), app(SBool, "bvule", off, max))
 	}
 	return and(app(SBool, "<=", intLit(0), off), app(SBool, "<=", intLit(0), ln), app(SBool, "<=", ln, cp),
-		app(SBool, "<=", cp, bigLit(pow2(62))), app(SBool, "<=", off, bigLit(pow2(62))))
+		app(SBool, "<=", cp, bigLit(pow2(50))), app(SBool, "<=", off, bigLit(pow2(50))))
 }
